@@ -166,6 +166,10 @@ def box_of(cfgbox, dim):
         return [-1.0] + [None] * (dim - 1), [None] + [2.0] * (dim - 1)
     if name == 'neg':
         return [-3.0] * dim, [-0.5] * dim
+    if name == 'intbox':        # endpoints given as python ints
+        return [0] * dim, [5] * dim
+    if name == 'fracbox':       # strictly inside intbox, non-integer endpoints
+        return [0.5] * dim, [4.5] * dim
     raise KeyError(name)
 
 
